@@ -27,6 +27,9 @@ type vPerson struct {
 	O     *bool
 	D     *time.Time
 	N     *int32 // stored as a 32-bit integer, queried as an int64 symbol
+	// not stored: served by function symbols (boltz.NewStringFuncSymbol / NewBoolFuncSymbol)
+	XS *string
+	XB bool
 }
 
 func (e *vPerson) GetId() string         { return e.Id }
@@ -65,6 +68,7 @@ func (vPersonStrategy) PersistEntity(e *vPerson, ctx *PersistContext) {
 
 type vPersonStore struct {
 	*BaseStore[*vPerson]
+	pop *vPop // what the function symbols answer from
 }
 
 func verifNewPersonStore() *vPersonStore {
@@ -88,6 +92,26 @@ func verifNewPersonStore() *vPersonStore {
 	s.AddSymbol("o", ast.NodeTypeBool)
 	s.AddSymbol("d", ast.NodeTypeDatetime)
 	s.AddSymbol("n", ast.NodeTypeInt64)
+	// the field s under another symbol name, plain and mapped so that null reads as ""
+	s.AddSymbolWithKey("alias", ast.NodeTypeString, "s")
+	s.AddSymbolWithKey("nn", ast.NodeTypeString, "s")
+	s.MapSymbol("nn", NotNilStringMapper{})
+	s.AddEntitySymbol(NewStringFuncSymbol(s, "xs", func(id string) *string {
+		if s.pop != nil {
+			if e := s.pop.byId(id); e != nil {
+				return e.XS
+			}
+		}
+		return nil
+	}))
+	s.AddEntitySymbol(NewBoolFuncSymbol(s, "xb", func(id string) bool {
+		if s.pop != nil {
+			if e := s.pop.byId(id); e != nil {
+				return e.XB
+			}
+		}
+		return false
+	}))
 	return s
 }
 
@@ -287,6 +311,10 @@ func verifSymPop(needs string, n int) *vPop {
 		if strings.Contains(needs, "o") {
 			e.O = verifOptBool("o")
 		}
+		if strings.Contains(needs, "x") {
+			e.XS = verifSymOptString("xs", 1)
+			e.XB = verifrt.Bool("xb")
+		}
 		if strings.Contains(needs, "n") && verifrt.Choose("n.nil", 2) == 1 {
 			v := verifrt.Int32("n")
 			e.N = &v
@@ -322,6 +350,7 @@ func verifC01Store(progs []vSProg) {
 	defer env.close()
 	store := verifNewPersonStore()
 	pop := verifSymPop(p.needs, n)
+	store.pop = pop
 	// create without references first, then set the references (any graph)
 	err := env.update(func(ctx MutateContext) error {
 		for _, e := range pop.ents {
@@ -392,6 +421,20 @@ var vSProgs2 = []vSProg{
 	{`n in [-2147483648, 2147483647]`, "n", func(p *vPop, e *vPerson) bool {
 		return e.N != nil && verifrt.Or(*e.N == -2147483648, *e.N == 2147483647)
 	}},
+	{`xs = "v"`, "x", func(p *vPop, e *vPerson) bool { return sEq(e.XS, "v") }},
+	{`xs != "v"`, "x", func(p *vPop, e *vPerson) bool { return e.XS == nil || *e.XS != "v" }},
+	{`xs contains "v" or xb = true`, "x", func(p *vPop, e *vPerson) bool {
+		return verifrt.Or(e.XS != nil && strings.Contains(*e.XS, "v"), e.XB)
+	}},
+	{`xb != true`, "x", func(p *vPop, e *vPerson) bool { return !e.XB }},
+	{`xs != null`, "x", func(p *vPop, e *vPerson) bool { return e.XS != nil }},
+	{`xs = null`, "x", func(p *vPop, e *vPerson) bool { return e.XS == nil }},
+	{`xs = ""`, "x", func(p *vPop, e *vPerson) bool { return sEq(e.XS, "") }},
+	{`alias = "x"`, "s", func(p *vPop, e *vPerson) bool { return sEq(e.S, "x") }},
+	{`alias = null`, "s", func(p *vPop, e *vPerson) bool { return e.S == nil }},
+	{`nn = ""`, "s", func(p *vPop, e *vPerson) bool { return e.S == nil || *e.S == "" }},
+	{`nn != null`, "s", func(p *vPop, e *vPerson) bool { return true }},
+	{`nn < "y"`, "s", func(p *vPop, e *vPerson) bool { return e.S == nil || *e.S < "y" }},
 	{`o = true`, "o", func(p *vPop, e *vPerson) bool { return e.O != nil && *e.O }},
 	{`o != true`, "o", func(p *vPop, e *vPerson) bool { return e.O == nil || !*e.O }},
 	{`o != null`, "o", func(p *vPop, e *vPerson) bool { return e.O != nil }},
